@@ -305,6 +305,15 @@ def run_verus(unit: VerusUnit, obs_by_name, workdir, rlimit=None, timeout=600):
     path = os.path.join(workdir, unit.name + ".rs")
     with open(path, "w") as f:
         f.write(unit.text)
+    # an attribute `#[cfg(..)]` left in extracted text would be evaluated by Verus's rustc with NO feature set, silently dropping the
+    # attributed code: every unit must evaluate them itself (vC16.apply_cfg) for the crate's default features
+    stray = re.search(r"#\s*\[\s*cfg(_attr)?\s*\(", re.sub(r"//[^\n]*", "", unit.text))
+    if stray:
+        for fn, on in unit.functions.items():
+            ob = obs_by_name[on]
+            ob.status, ob.detail, ob.seconds = "undecided", "the extracted text carries a `#[cfg(..)]` attribute the unit does not evaluate (extraction drift)", 0.0
+        return {"unit": unit.name, "seconds": 0.0, "verified": None, "errors": None, "path": path,
+                "machinery_error": "unevaluated #[cfg] attribute in the generated unit"}
     cmd = ["verus", path, "--output-json", "--time", "--multiple-errors", "50"]
     rlimit = rlimit or getattr(unit, "rlimit", None)
     if rlimit:
